@@ -21,7 +21,8 @@ ASSUMPTIONS = ["signature labels are not compared (6/8 and 3/4 render alike), on
                "the velocity-bin value is looked up in the tokeniser's own table by the harness's linear search"]
 REQUIRED_FLAGS = ["track_channel_not_zero", "configuration_history", "rest_crosses_bar_line", "signature_change", "multi_track", "same_pitch_same_tick_two_tracks", "empty_track",
                   "unequal_track_lengths", "note_overhangs_last_bar_line", "last_onset_on_bar_line_without_cap",
-                  "trailing_empty_bar", "velocity_binned", "unfused_all", "no_running_values", "non_default_note_values"]
+                  "trailing_empty_bar", "velocity_binned", "unfused_all", "no_running_values", "non_default_note_values",
+                  "bar_by_bar_with_state_dictionary", "rejected_call_then_repeated_with_the_valid_bar"]
 
 SIG = {"44": (4, 4), "34": (3, 4), "24": (2, 4), "68": (6, 8), "58": (5, 8), "22": (2, 2), "38": (3, 8)}   # a 36-tick note fills a 3/8 bar
 FL = list(itertools.product((True, False), repeat=4))   # running, fuse_track, fuse_value, fuse_velocity
@@ -75,6 +76,8 @@ def units(ctx):
         yield ("long", k)
     for K in (17, 33, 65, 129, 300):
         yield ("pause", K)
+    for k in range(4):
+        yield ("barwise", k)
     for vb in (1, 2, 3, 5, 8, 16, 17, 19, 32, 33, 64, 127, 128):
         yield ("velsweep", vb)
     for vb in ([1, 2, 3, 4, 8] if ctx["tier"] == "quick" else [1, 2, 3, 4, 5, 8, 15, 16, 19, 32, 64, 100, 127]):
@@ -161,6 +164,23 @@ def gen_cases(unit, ctx):
                 yield piece(plan, [t0], 1, cfg, vb)
                 yield piece(plan, [t0, t1], 0, cfg, vb)
                 yield piece(plan, [t0, t1, t2], 1, cfg, vb)
+        return
+    if kind == "barwise":
+        # the piece handed over bar by bar with one state dictionary (as the repository's own round-trip tests do), with
+        # and without one call that the tokeniser rejects (a pitch outside its range on the bar's last tick) and that the
+        # caller repeats with the valid bar
+        plan = [["44"] * 4, ["34", "44", "68", "38", "58", "22"], [None, "44", "34", "34"], ["38"] * 5][unit[1]]
+        st, _ = grid(plan)
+        end = st[-1]
+        t0 = [(o, 12 if (o // 12) % 2 else 6, 60 + (o // 12) % 20, 1 + (o * 7) % 127) for o in range(0, end, 12)]
+        t1 = [(st[b] + 6, 12, 50 - b % 10, 64) for b in range(len(plan))]      # no note crosses a bar line
+        for cfg in (FL[0], FL[15], FL[5]):
+            for rej in (None, 0, 1, len(plan) // 2, len(plan) - 1):
+                for trs in ([t0], [t0, t1]):
+                    c = piece(plan, trs, 1, cfg, 8, pr=(30, 100))
+                    c["barwise"] = True
+                    c["reject_at"] = rej
+                    yield c
         return
     if kind == "pause":
         # scale in time: three bars of music, K completely silent bars (one rest of up to 28800 ticks), two more bars
@@ -352,7 +372,28 @@ def check_case(case, ctx):
         R.bad("tokeniser_construction_raises", f"{type(e).__name__}: {e}")
         return R
     try:
-        toks = t.tokenise(seqs)
+        if case.get("barwise"):
+            from scoda.exceptions.tokenisation_exception import TokenisationException
+            from scoda.sequences.sequence import Sequence
+            bars = Sequence.sequences_split_bars(seqs, 0, False)
+            sd, toks = {}, []
+            R.flags.append("bar_by_bar_with_state_dictionary")
+            for k in range(len(bars[0])):
+                if case.get("reject_at") == k:
+                    bad_ = [core.clone(tr[k].sequence) for tr in bars]
+                    e_ = lib.view_abs(bad_[0])[1]
+                    ch_ = (chan + 0) % 16
+                    bad_[0].add_absolute_message(lib.on(e_ - 1, case["pr"][1] + 1, ch_, 64))
+                    bad_[0].add_absolute_message(lib.off(e_, case["pr"][1] + 1, ch_))
+                    try:
+                        t.tokenise(bad_, state_dict=sd)
+                        R.outcome = "poisoned_bar_not_rejected"
+                        return R
+                    except TokenisationException:
+                        R.flags.append("rejected_call_then_repeated_with_the_valid_bar")
+                toks += t.tokenise([tr[k].sequence for tr in bars], state_dict=sd)
+        else:
+            toks = t.tokenise(seqs)
     except Exception as e:  # noqa: BLE001
         R.bad("tokenise_fails_on_valid_piece", f"{type(e).__name__}: {e}")
         return R
